@@ -1,0 +1,16 @@
+//go:build verif
+
+// Contracts of the relayer keeper entry points called from x/goat and app/ante.go (comment-only).
+package keeper
+
+// TRUSTED frame: adds/removes voters (Voters map) and the pending queue.
+//@ func (Keeper).ProcessRelayerRequest
+//@ property C09
+//@ trusted
+//@ modifies st.relayer.Voters, st.relayer.Queue
+
+// verified: the current relayer proposer is the decoded Proposer field of the stored relayer record
+//@ func (Keeper).GetCurrentProposer
+//@ property C10
+//@ ensures found: err == nil ==> has(st.relayer.Relayer) && result == addrDecode(st.relayer.Relayer.Proposer) && addrDecodeErr(st.relayer.Relayer.Proposer) == 0
+//@ modifies nothing
